@@ -35,24 +35,24 @@ Definition corr (c : case) : bool :=
    tracked key, a delta applies to the payload the client holds, nothing is
    pushed for a key that is not tracked (after untrack / removal / revocation /
    end of the subscription), an epoch flip unsubscribes. *)
-Record ost := mkO { o_sub : bool; o_last : key -> option ver; o_held : key -> option ver }.
+Record ost := mkO { o_sub : bool; o_last : key -> option ver; o_held : key -> option ver; o_keys : list key }.
 
 Definition o_push (o : ost) (p : push) : option ost :=
   match p with
   | PFull k v =>
       match o_last o k with
-      | Some l => if Nat.ltb l v then Some (mkO (o_sub o) (upd (o_last o) k (Some v)) (upd (o_held o) k (Some v))) else None
+      | Some l => if Nat.ltb l v then Some (mkO (o_sub o) (upd (o_last o) k (Some v)) (upd (o_held o) k (Some v)) (o_keys o)) else None
       | None => None
       end
   | PDelta k v base =>
       match o_last o k, o_held o k with
       | Some l, Some h =>
           if Nat.ltb l v && Nat.eqb h base
-          then Some (mkO (o_sub o) (upd (o_last o) k (Some v)) (upd (o_held o) k (Some v))) else None
+          then Some (mkO (o_sub o) (upd (o_last o) k (Some v)) (upd (o_held o) k (Some v)) (o_keys o)) else None
       | _, _ => None
       end
-  | PRemoved k => Some (mkO (o_sub o) (upd (o_last o) k None) (upd (o_held o) k None))
-  | PUnsub => Some (mkO false (fun _ => None) (fun _ => None))
+  | PRemoved k => Some (mkO (o_sub o) (upd (o_last o) k None) (upd (o_held o) k None) (del_tkey k (o_keys o)))
+  | PUnsub => Some (mkO false (fun _ => None) (fun _ => None) [])
   end.
 
 Fixpoint o_pushes (o : ost) (ps : list push) : option ost :=
@@ -64,13 +64,13 @@ Fixpoint o_pushes (o : ost) (ps : list push) : option ost :=
 (* what the client itself does when it issues the action *)
 Definition o_act (o : ost) (a : act) : ost :=
   match a with
-  | ASubscribe => if o_sub o then o else mkO true (fun _ => None) (fun _ => None)
+  | ASubscribe => if o_sub o then o else mkO true (fun _ => None) (fun _ => None) []
   | ATrack k fresh =>
       if o_sub o then
         let cv := if fresh then 0 else match o_held o k with Some h => h | None => 0 end in
-        mkO true (upd (o_last o) k (Some cv)) (if fresh then upd (o_held o) k None else o_held o)
+        mkO true (upd (o_last o) k (Some cv)) (if fresh then upd (o_held o) k None else o_held o) (add_tkey k (o_keys o))
       else o
-  | AUntrack k _ => mkO (o_sub o) (upd (o_last o) k None) (upd (o_held o) k None)
+  | AUntrack k _ => mkO (o_sub o) (upd (o_last o) k None) (upd (o_held o) k None) (del_tkey k (o_keys o))
   | _ => o
   end.
 
@@ -80,7 +80,7 @@ Fixpoint oracle_run (o : ost) (script : list act) (obs : list (list push)) : boo
   | a :: t, ps :: pt =>
       let o1 := o_act o a in
       let flip_ok := match a with
-                     | AEpochFlip => negb (o_sub o) || existsb (fun p => match p with PUnsub => true | _ => false end) ps
+                     | AEpochFlip => negb (o_sub o) || match o_keys o with [] => true | _ => false end || existsb (fun p => match p with PUnsub => true | _ => false end) ps
                      | _ => true
                      end in
       match o_pushes o1 ps with
@@ -91,6 +91,6 @@ Fixpoint oracle_run (o : ost) (script : list act) (obs : list (list push)) : boo
   end.
 
 Definition oracle (c : case) : bool :=
-  oracle_run (mkO false (fun _ => None) (fun _ => None)) (c_script c) (c_obs c).
+  oracle_run (mkO false (fun _ => None) (fun _ => None) []) (c_script c) (c_obs c).
 
 Definition run (cs : list case) := failing corr oracle cs.
